@@ -163,24 +163,27 @@ func refChooseSome(d *refDRBG, ws []uint64, cnt int) ([]int, bool) {
 }
 
 // refChooseSomeMaxWeight: `tries` independent samplings from the same stream, the one with the largest
-// total weight wins, the earliest among equals.
-func refChooseSomeMaxWeight(d *refDRBG, ws []uint64, cnt, tries int) ([]int, bool) {
-	var best []int
+// total weight wins, the earliest among equals.  winner is the index of the winning try; tie reports that a
+// later try reached the same total as the best so far with a different sequence (and was, correctly, not taken).
+func refChooseSomeMaxWeight(d *refDRBG, ws []uint64, cnt, tries int) (best []int, winner int, tie bool, ok bool) {
 	var bestSum *big.Int
 	for t := 0; t < tries; t++ {
 		cand, ok := refChooseSome(d, ws, cnt)
 		if !ok {
-			return nil, false
+			return nil, 0, false, false
 		}
 		sum := new(big.Int)
 		for _, i := range cand {
 			sum.Add(sum, bigU(ws[i]))
 		}
-		if bestSum == nil || sum.Cmp(bestSum) > 0 {
-			best, bestSum = cand, sum
+		switch {
+		case bestSum == nil || sum.Cmp(bestSum) > 0:
+			best, bestSum, winner = cand, sum, t
+		case sum.Cmp(bestSum) == 0 && !intsEq(cand, best):
+			tie = true
 		}
 	}
-	return best, true
+	return best, winner, tie, true
 }
 
 // refSigners: partial Fisher-Yates over the available members listed in ascending member-id order:
